@@ -99,7 +99,7 @@ spec.EXTRA_INSTALLERS.append(install)
 
 POPS = [[], ['plain'], ['mz'], ['matrix'], ['plain', 'mz'], ['matrix', 'plain'], ['plain', 'plain']]
 for pop in POPS:
-    c = contract(SN, 'Snapshot.generate', serves=['C18'], unwrap=1, name='ScriptSnapshot.generate(None)[%s]' % ','.join(pop))
+    c = contract(SN, 'Snapshot.generate', serves=['C18', 'C20'], unwrap=1, name='ScriptSnapshot.generate(None)[%s]' % ','.join(pop))
     def _setup(b, case, pop=pop):
         lights, descr = PyDict(), []
         names = []
